@@ -32,6 +32,13 @@ fn check_interleaver(l: &mut Local, c_cols: usize, r_rows: usize, backward: bool
     // i64
     l.eval();
     let tags: Vec<i64> = (0..n as i64).collect();
+    // call history: an interleaver with the same shape but the opposite read direction (and one with another
+    // column count) is used on this thread, on a block of the same length, right before the one under test
+    let _ = guard(|| Interleaver::new(c_cols, !backward).interleave(&Array1::from_vec(tags.clone())));
+    let _ = guard(|| Interleaver::new(c_cols, !backward).deinterleave(&tags));
+    if r_rows > 1 && n % r_rows == 0 {
+        let _ = guard(|| Interleaver::new(r_rows, backward).interleave(&Array1::from_vec(tags.clone())));
+    }
     match guard(|| il.interleave(&Array1::from_vec(tags.clone()))) {
         Err(p) => {
             l.violation(format!("interleave panicked on a divisible length ({}): {}", dirname, panic_class(&p)), det(&p));
@@ -324,7 +331,7 @@ fn check_indivisible(l: &mut Local, pattern: &[bool], len: usize) {
 
 pub fn run(run: &mut Run) {
     let miri = cfg!(miri);
-    run.rule = "interleaver: EXHAUSTIVE over columns C in 1..12, rows R in 1..12, both directions, element types i64/f64/u8/GF2 with unique tags so the permutation is read off the output (f64 vectors contain +0.0 and -0.0 and are compared bit for bit) (plus random larger shapes up to 360x180 in thorough); puncturer: EXHAUSTIVE over all 510 patterns of length <= 8 with >= 1 true x block sizes 1..6, all lengths <= 50 that the pattern length / kept count does not divide, and the empty input; non-trivial = shape with C>1 and R>1 / pattern that removes at least one block; distinct by (C,R,dir) or (pattern, block)".into();
+    run.rule = "interleaver: EXHAUSTIVE over columns C in 1..12, rows R in 1..12, both directions, element types i64/f64/u8/GF2 with unique tags so the permutation is read off the output (f64 vectors contain +0.0 and -0.0 and are compared bit for bit; every shape is exercised right after an interleaver of the same shape and opposite direction was used on the same thread) (plus random larger shapes up to 360x180 in thorough); puncturer: EXHAUSTIVE over all 510 patterns of length <= 8 with >= 1 true x block sizes 1..6, all lengths <= 50 that the pattern length / kept count does not divide, and the empty input; non-trivial = shape with C>1 and R>1 / pattern that removes at least one block; distinct by (C,R,dir) or (pattern, block)".into();
     run.exhaustive = Some(true);
     run.assumptions = vec![
         "the interleaver's documented panic on lengths not divisible by the column count is outside the statement".into(),
